@@ -106,6 +106,19 @@ theorem linv_step (cerr : Nat → Bool) (st st' : St) (t : Nat) (h : LInv cerr s
     injection hs with hs; subst hs
     refine linv_keep cerr st _ t _ h rfl rfl ?_
     cases hb : decide (st.holder = some t) <;> simp [hp, hb, ok] at ht ⊢; exact ht
+  · -- connectBodyU (the repaired tail of connect: gives the lock back before it closes the connection)
+    rename_i c r hp
+    split at hs
+    · rename_i hh
+      split at hs <;>
+      · injection hs with hs; subst hs
+        intro u
+        have hu := h u
+        by_cases e : u = t
+        · subst e; simp [upd, hp, hh, ok] at ht ⊢; exact ht
+        · have : ¬ (t = u) := fun x => e x.symm
+          simp [upd, e, hh, this] at hu ⊢; exact hu
+    · simp at hs
 
 theorem linv_run (cerr : Nat → Bool) : ∀ (ts : List Nat) (s s' : St), LInv cerr s → run cerr s ts = some s' → LInv cerr s'
   | [], s, s', h, hr => by simp [run] at hr; subst hr; exact h
@@ -137,7 +150,7 @@ theorem holder_steps (cerr : Nat → Bool) (st : St) (t : Nat) (h : LInv cerr st
   · rename_i hp; simp [hp, ok] at ht
   · rename_i r hp; simp [hp, ok] at ht
   · simp [hh]
-  all_goals (first | (split <;> simp) | simp)
+  all_goals (first | (simp [hh]; done) | (split <;> simp; done) | (simp [hh]; split <;> simp))
 
 /-- under the invariant, as long as some thread has work left some thread can move -/
 theorem some_thread_steps (cerr : Nat → Bool) (st : St) (u : Nat) (h : LInv cerr st) (hu : st.prog u ≠ []) :
@@ -153,6 +166,6 @@ theorem some_thread_steps (cerr : Nat → Bool) (st : St) (u : Nat) (h : LInv ce
     · rename_i hp; exact absurd hp hu
     · simp [hh]
     · rename_i r hp; simp [hp, ok] at h1
-    all_goals (first | (split <;> simp) | simp)
+    all_goals (first | (simp; done) | (split <;> simp; done) | (rename_i hp; simp [hp, ok] at h1))
 
 end PoolLock
